@@ -115,7 +115,7 @@ def run_shard(spec, ctx):
         ctx.samples.append(f"U+{spec['lo']:04X}..U+{spec['hi'] - 1:04X} each encoded on its own")
     elif part == "strings":
         chars = table()
-        good = [c for c in chars if c is not None and len(c) == 1 and c not in '\r\n"\\\x00']
+        good = [c for c in chars if c is not None and len(c) == 1 and c not in '\r\x00'] + ["\\", "\\", '"']
         bad_pool = "ΩλЁё€∑あ🙂 ÿĀ§©"
         good_c = st.sampled_from(good)
         bad_c = st.sampled_from(bad_pool)
@@ -127,7 +127,7 @@ def run_shard(spec, ctx):
             s = "".join(cs)
             if mode == "char":
                 s = s[:1]
-                if s in "'\t" or (ord(s) < 0x20) or s == " ":
+                if s in "'\t\\\"" or (ord(s) < 0x20) or s == " ":
                     s = "A"
             case = {"kind": "string", "s": s, "mode": mode}
             offenders = [i for i, c in enumerate(s) if c in bad_pool]
@@ -210,7 +210,8 @@ def replay(case):
                 return [("strings:crash", f"{type(ex).__name__}: {ex}")]
             return []
         if mode in (".ascii", ".asciz"):
-            text = f'{mode} "{s}"\n'
+            esc = s.replace("\\", "\\\\").replace('"', '\\"')
+            text = f'{mode} "{esc}"\n'
             tail = b"\0" if mode == ".asciz" else b""
         else:
             text = f".word '{s}\n"
